@@ -552,6 +552,7 @@ type OpResult struct {
 	Panic string
 	Log   *ledger.Log
 	Tx    *ledger.Transaction
+	Status int   // HTTP: status of a 2xx answer (0: not printed)
 	HTTP  bool   // answer of the HTTP API (httpop.go): no log id, Class is "<status>:<errorCode>"
 	Body  []byte // HTTP: body of a 2xx answer
 }
@@ -567,6 +568,9 @@ func (r OpResult) sx() string {
 		tx := "nil"
 		if r.TxID != nil {
 			tx = fmt.Sprint(*r.TxID)
+		}
+		if r.Status != 0 {
+			return L("ok", fmt.Sprint(r.Status), tx, b01(r.Hit))
 		}
 		return L("ok", tx, b01(r.Hit))
 	}
